@@ -17,7 +17,7 @@ OPS_FOR = {
     "C14": ["show"],
 }
 
-SORT_MAX = 5      # modular sort obligations: Array lengths up to this in the thorough tier, one less in the quick tier
+SORT_MAX = 4      # modular sort obligations: Array / Tuple lengths up to this in both tiers (the full range at length 5 does not finish within 15 minutes)
 
 def extract_function(relpath, name, newname):
     """mechanical extraction (every run, from the working tree): the text of one function of /repo, from its definition line to the
@@ -66,7 +66,7 @@ def _array_jobs(tier, prop):
             defs.append("M=%d" % m); name += ".m%d" % m
         J.append(Job(name, "C04", "K3", "Array/k3.c", "h_" + op, F[op], link=L, defines=defs, replace_calls=["exception_throw:cv_throw"] + list(rc),
                      unwind=8, cbmc=["--unwindset", "cv_live_count.0:26", "--no-malloc-may-fail"] + list(extra), covers=covers, gen=gen,
-                     group="Array.%s" % op, also=["C05", "C11", "C12", "C19", "C09", "C10", "C06", "C01", "C14"], timeout=(900 if tier == "thorough" else 300),
+                     group="Array.%s" % op, also=["C05", "C11", "C12", "C19", "C09", "C10", "C06", "C01", "C14"], timeout=(1800 if tier == "thorough" else 300),
                      bound="Array: length <= %d, every capacity the growth/shrink policy yields, every index in [-len-3, len+2]" % nmax,
                      case="len=%d cap=%d%s%s" % (n, s, "" if idx is None else " index=%d" % idx, "" if m is None else " operand_len=%d" % m),
                      replay="seq_array.c",
@@ -82,7 +82,7 @@ def _array_jobs(tier, prop):
                 add("sort_part", n, n, covers=(lo == 0 and hi == n - 1), rng=(lo, hi), rc=["Array_Sort_Partition:cv_partition_stub", "Array_Sort_Part:cv_sort_part_stub"],
                     gen={"gen_sort_part.h": body}, defs2=["CV_SORT_BODY"])
         add("sort_by", n, n, covers=True, rc=["Array_Sort_Part:cv_sort_part_top"])
-    for n in range(nmax + 1, (SORT_MAX if tier == "thorough" else SORT_MAX - 1) + 1):
+    for n in range(nmax + 1, SORT_MAX + 1):
         sort_modular(n)
     for n in range(0, nmax + 1):
         for s in caps(n):
@@ -137,7 +137,7 @@ def _list_jobs(tier, prop):
             defs.append("M=%d" % m); name += ".m%d" % m
         J.append(Job(name, "C04", "K3", "List/k3.c", "h_" + op, F[op], link=L, defines=defs, replace_calls=["exception_throw:cv_throw"],
                      unwind=8, cbmc=["--unwindset", "cv_live_count.0:26", "--no-malloc-may-fail"] + list(extra), covers=covers,
-                     group="List.%s" % op, also=["C05", "C11", "C12", "C19", "C09", "C10", "C06", "C01", "C14"], timeout=(900 if tier == "thorough" else 300),
+                     group="List.%s" % op, also=["C05", "C11", "C12", "C19", "C09", "C10", "C06", "C01", "C14"], timeout=(1800 if tier == "thorough" else 300),
                      bound="List: length <= %d, every index in [-len-3, len+2]" % nmax,
                      case="len=%d%s%s" % (n, "" if idx is None else " index=%d" % idx, "" if m is None else " operand_len=%d" % m),
                      replay="seq_list.c",
@@ -209,7 +209,7 @@ def _tuple_jobs(tier, prop):
                      case="len=%d%s%s%s%s" % (n, "" if idx is None else " index=%d" % idx, "" if m is None else " operand_len=%d" % m, "" if heap else " stack receiver", " repeated item" if dup else ""),
                      replay="seq_tuple.c",
                      assumptions=["element model (contracts/elem.h)", "malloc/realloc/free: cbmc built-in models, allocation failure not explored (--no-malloc-may-fail)"]))
-    for n in range(2, (SORT_MAX if tier == "thorough" else SORT_MAX - 1) + 1):
+    for n in range(2, SORT_MAX + 1):
         for lo in range(0, n):
             for hi in range(lo + 1, n):
                 add("sort_partition", n, covers=(lo == 0 and hi == n - 1), rng=(lo, hi))
